@@ -254,9 +254,28 @@ def inject(body, loops, keyword=r"\bfor\b"):
     return out
 
 
+def dimension_facts(body, params, out_names=("out", "sink")):
+    """`let n = ix.len();` (immutable, of an input) before a loop: Verus loop bodies do not see facts about locals established
+    before the loop, so `n == ix.ln()` is added to every loop invariant -- the verdict must not depend on whether the
+    maintainer hoisted a dimension into a local"""
+    facts = []
+    for m in re.finditer(r"let\s+(\w+)\s*=\s*(%s)\.(len|nrows|ncols)\(\)\s*;" % "|".join(params), body):
+        if m.group(2) in out_names:
+            continue
+        facts.append("%s == %s.%s()" % (m.group(1), m.group(2), {"len": "ln", "nrows": "nr", "ncols": "nc"}[m.group(3)]))
+    return facts
+
+
 def kernel_fn(name, macro_text, params, sig, requires, ensures, invariants, scalars=(), pre="", post="Some(())", keyword=r"\bfor\b"):
     body = transcribe(macro_text, params, scalars)
     if invariants is not None:
+        facts = dimension_facts(body, params)
+        if facts:
+            def add(lp):
+                head = lp if isinstance(lp, str) else lp[0]
+                head = re.sub(r"\binvariant\b", "invariant " + ", ".join(facts) + ",", head, count=1) if "invariant" in head else head
+                return head if isinstance(lp, str) else (head,) + tuple(lp[1:])
+            invariants = [add(lp) for lp in invariants]
         body = inject(body, invariants, keyword=keyword)
     if not body.rstrip().endswith((";", "}")):
         body = body.rstrip() + ";"
